@@ -85,6 +85,12 @@ def extra_cases(rng, quick):
             out.append(dict(kind="ideal", pi=8000.0, pf=8000.0 * ratio, nx=nx, times=rescorr.time_grid(gk, nt + 6, 0.5, rng), grid=gk))
             out.append(dict(kind="single", table=tb, table_kind="shipped", pi=8000.0, pf=8000.0 * ratio, nx=min(nx, 150),
                             times=rescorr.time_grid(gk, nt + 6, 0.5, rng), grid=gk))
+    # long constant-drawdown runs, until the profile has relaxed onto the frac-face value (a step must still be SOLVED there)
+    for nx in (3, 12):
+        out.append(dict(kind="single", table=tb, table_kind="shipped", pi=8000.0, pf=500.0, nx=nx, times=np.linspace(0, 160.0, 60), grid="uniform"))
+        out.append(dict(kind="single", table=rescorr.synth_table("liquid", 30), table_kind="liquid", pi=9000.0, pf=1000.0, nx=nx,
+                        times=np.linspace(0, 12.0, 50), grid="uniform"))
+        out.append(dict(kind="single", table=tb, table_kind="shipped", pi=8000.0, pf=8000.0 * (1 - 2e-6), nx=nx, times=np.linspace(0, 2.0, 12) ** 2, grid="quadratic"))
     return out
 
 
